@@ -1,5 +1,6 @@
 import Acra.Lemmas.Ch11UART
 import Acra.Props.C08.MIL1553
+import Acra.Lemmas.ReviewC08Records
 namespace Acra.Props.C08
 open Acra.Py Acra.Model.Ch11Pay Acra.Model.Ch11Pay.UART Acra.Gen.Ch11UART Acra.Lemmas.Ch11UART
 
@@ -105,5 +106,71 @@ theorem UART_items_le (t : Packet) (buf : Bytes) (h : (Packet.unpack t buf).2 = 
         simp only [hd]
         intro _
         exact decOff_items_le (decWord proto) moreUART buf (decWord_progress proto) _ 4 ws hd
+
+/-- [review] the per-iteration bound for the loop step: an accepted word advances by at least its 4-byte
+    intra-packet data header -/
+theorem decWord_advance_ge (proto : Word) (b : Bytes) (w : Word) (n : Nat) (h : decWord proto b = .ok (w, n)) :
+    4 ≤ n := by
+  simp only [decWord] at h
+  cases hu : Word.unpack proto b with
+  | mk w' r =>
+    rw [hu] at h
+    cases r with
+    | error e => simp at h
+    | ok k =>
+      simp only [Except.ok.injEq, Prod.mk.injEq] at h
+      have := UARTWord_unpack_consumes proto b w' k hu
+      omega
+
+/-- [review] work bound with the real stride: at most ⌈(|buf| − 4)/4⌉ words -/
+theorem UART_items_stride (t : Packet) (buf : Bytes) (h : (Packet.unpack t buf).2 = .ok ()) :
+    (Packet.unpack t buf).1.uartwords.length * 4 ≤ (buf.length - 4) + 3 := by
+  revert h
+  simp only [Packet.unpack]
+  cases hc : structUnpackFrom UP_unpack_fmt0 buf 0 with
+  | error e => simp
+  | ok v =>
+    cases hp : t.proto with
+    | none => simp
+    | some proto =>
+      cases hd : decOff (decWord proto) moreUART buf (buf.length + 1) 4 with
+      | error e => simp [hd]
+      | ok ws =>
+        simp only [hd]
+        intro _
+        exact Acra.Lemmas.ReviewC08.decOff_items_stride (decWord proto) moreUART buf (decWord_progress proto) 4
+          (decWord_advance_ge proto) _ 4 ws hd
+/-- [review] witness: PTP-stamped little-endian packet with two words (payloads of 3 and 2 bytes) -/
+def wUART : Bytes :=
+  [0, 0, 0, 128,  255, 201, 154, 59, 5, 0, 0, 0, 3, 0, 0, 0, 2, 1, 255, 3,  255, 201, 154, 59, 5, 0, 0, 0, 2, 0, 0, 0, 8, 7]
+
+example : (Packet.unpack (Packet.fresh (some 1) 1) wUART).2 = .ok () ∧
+    (Packet.unpack (Packet.fresh (some 1) 1) wUART).1.uartwords.map (fun w => (w.ipts, w.payload)) =
+      [(.ptp 5 999999999, [1, 2, 3]), (.ptp 5 999999999, [7, 8])] := ⟨by rfl, by rfl⟩
+example : (Word.unpack (Word.fresh (.ptp 0 0) 1) (wUART.drop 4)).2 = .ok 16 := by rfl
+example : unpackTs (.ptp 0 0) (wUART.drop 4) = .ok (.ptp 5 999999999, 8) := by rfl
+example : (decWord (Word.fresh (.ptp 0 0) 1) (wUART.drop 4)).map (·.2) = .ok 16 := by rfl
+/-! ### review additions (rev1-C08): outcome lists — the element decoders have no loop and no fuel in their models, so
+    `≠ .error .fuel` holds by construction; what C08 says about them is which ordinary exceptions can occur -/
+
+theorem unpackTs_outcomes (i : Ipts) (buf : Bytes) :
+    (∃ r, unpackTs i buf = .ok r) ∨ unpackTs i buf = .error .struct ∨ unpackTs i buf = .error .attribute := by
+  unfold unpackTs
+  have := Ipts_unpack_outcomes i (buf.take 8)
+  repeat' split
+  all_goals first
+    | (simp; done)
+    | (rename_i e h; rw [h] at this; simpa using this)
+
+theorem UARTWord_unpack_outcomes (t : Word) (buf : Bytes) :
+    (∃ n, (Word.unpack t buf).2 = .ok n) ∨ (Word.unpack t buf).2 = .error .struct ∨
+    (Word.unpack t buf).2 = .error .attribute := by
+  simp only [Word.unpack]
+  have := unpackTs_outcomes t.ipts buf
+  repeat' split
+  all_goals first
+    | (simp; done)
+    | (rename_i e h; rw [h] at this; simpa using this)
+    | (rename_i e h; have := structUnpackFrom_error _ _ _ _ h; subst this; simp)
 
 end Acra.Props.C08
